@@ -440,6 +440,8 @@ impl Container for DynamicContainer {
         let archive_id = entry.archive_id();
         let archive_offset = entry.archive_offset();
         let entry_size = entry.size;
+        #[cfg(feature = "verif-hooks")]
+        crate::verif_hooks::sched_point("dyn.read.looked_up");
 
         // Read from archive.
         // Truncation detection: CASC's `casc::Dynamic::Read`
@@ -520,6 +522,8 @@ impl Container for DynamicContainer {
             total_size,
         );
 
+        #[cfg(feature = "verif-hooks")]
+        crate::verif_hooks::sched_point("dyn.write.archived");
         // Update index (KMT) with the new entry.
         // The key stored in the index is the first 9 bytes of the
         // encoding key (MD5 of BLTE data), not the content key passed in.
@@ -539,6 +543,8 @@ impl Container for DynamicContainer {
             lru.write().touch(&ekey_9);
         }
 
+        #[cfg(feature = "verif-hooks")]
+        crate::verif_hooks::sched_point("dyn.write.indexed");
         // Persist the updated index to disk
         {
             let index = self.index.read();
@@ -565,6 +571,8 @@ impl Container for DynamicContainer {
 
         if removed {
             debug!("removed key {} from index", hex::encode(&key[..9]));
+            #[cfg(feature = "verif-hooks")]
+            crate::verif_hooks::sched_point("dyn.remove.removed");
             // Persist the updated index
             let index = self.index.read();
             index.save_all()?;
